@@ -59,8 +59,42 @@ class _IfNormaliser(ast.NodeTransformer):
     def __init__(self):
         self.count = 0
 
+    @staticmethod
+    def _bool_ifexp(t):
+        """in a truth-value position: `X if A else False` is `A and X`, `True if A else X` is `A or X`, and the two negated forms"""
+        from .normalise import negate
+        if isinstance(t, ast.IfExp):
+            def const(v):
+                return v.value if isinstance(v, ast.Constant) and isinstance(v.value, bool) else None
+            a, x, y = t.test, t.body, t.orelse
+            new = None
+            if const(y) is False:
+                new = ast.BoolOp(op=ast.And(), values=[a, x])
+            elif const(x) is True:
+                new = ast.BoolOp(op=ast.Or(), values=[a, y])
+            elif const(y) is True:
+                new = ast.BoolOp(op=ast.Or(), values=[negate(a), x])
+            elif const(x) is False:
+                new = ast.BoolOp(op=ast.And(), values=[negate(a), y])
+            if new is not None:
+                vals = []
+                for v in new.values:
+                    if isinstance(v, ast.BoolOp) and type(v.op) is type(new.op):
+                        vals += v.values
+                    else:
+                        vals.append(v)
+                new.values = vals
+                return ast.copy_location(new, t)
+        return t
+
+    def visit_While(self, node):
+        self.generic_visit(node)
+        node.test = self._bool_ifexp(node.test)
+        return node
+
     def visit_If(self, node):
         self.generic_visit(node)
+        node.test = self._bool_ifexp(node.test)
         t = node.test
         if node.orelse and isinstance(t, ast.UnaryOp) and isinstance(t.op, ast.Not):
             node.test = t.operand
@@ -322,6 +356,9 @@ class Module:
         self.inlined_helpers = inline_single_use_helpers(self.tree)
         from .normalise import inline_helpers_v2
         self.inlined_helpers += inline_helpers_v2(self.tree)
+        from .normalise import fuse_boolean_results, forward_single_use_temps
+        fuse_boolean_results(self.tree)
+        forward_single_use_temps(self.tree)
         from .normalise import eliminate_copies, void_early_returns, unroll_literal_loops
         unroll_literal_loops(self.tree)
         from .normalise import constant_attr_access
